@@ -129,7 +129,7 @@ def gen_digest(ctx):
     cases = []
     for alg in ALGS:
         cases.append("%s s" % alg)                                   # Init; Final
-        for ln in gen_lengths(ctx, ctx.n(40, 1500), 400):
+        for ln in gen_lengths(ctx, ctx.n(150, 3000), 400):
             msg = rand_bytes(ctx, ln)
             kinds = PART_KINDS if ln in BOUNDARY_LENS else [r.choice(PART_KINDS), r.choice(PART_KINDS)]
             for kind in kinds:
@@ -153,7 +153,7 @@ def gen_hmac(ctx):
     r = ctx.rng
     cases = []
     for alg in ALGS:
-        klens = list(KEY_LENS) + [r.randrange(0, 260) for _ in range(ctx.n(4, 150))]
+        klens = list(KEY_LENS) + [r.randrange(0, 260) for _ in range(ctx.n(20, 400))]
         for kl in klens:
             key = rand_bytes(ctx, kl)
             lens = [0, r.choice(BOUNDARY_LENS), r.choice(BOUNDARY_LENS), r.randrange(0, 300)]
@@ -179,7 +179,7 @@ def gen_pbkdf2(ctx):
         c = r.choice([0, 1, 2, 3, r.randrange(1, 21)])
         cases.append("pbkdf2 %s %s %x %d" % (hx(rand_bytes(ctx, r.randrange(0, 20))), hx(rand_bytes(ctx, r.randrange(0, 20))), c, dk))
         ctx.count("pbkdf2.dklen.%s" % ("multiple_of_32" if dk % 32 == 0 else "partial_block"))
-    for _ in range(ctx.n(30, 600)):
+    for _ in range(ctx.n(80, 1500)):
         pl = r.choice([0, 1, 8, 63, 64, 65, 100, r.randrange(0, 130)])
         sl = r.choice([0, 1, 16, 51, 52, 59, 60, 61, r.randrange(0, 130)])     # salt||INT(i) around 55/56/64
         c = r.choice([0, 1, 2, r.randrange(1, 21), r.randrange(1, 21)])
@@ -200,7 +200,7 @@ def gen_xform(ctx):
     cases = []
     nst = {"sha256": 32, "sha1": 20, "md5": 16}
     for alg in ALGS:
-        for i in range(ctx.n(60, 2500)):
+        for i in range(ctx.n(300, 6000)):
             if i < 6:
                 st = bytes([[0, 0xff, 0x80, 0x7f, 1, 0xaa][i]]) * nst[alg]
                 blk = bytes([[0, 0xff, 0x80, 0x7f, 0xff, 0x55][i]]) * 64
